@@ -53,7 +53,7 @@ RULE = (
     "writes to >=2 files; distinct by case hash."
 )
 CLASSES = [
-    "nested_dict", "list_mutation", "multi_handle", "project_doc", "buffer_cap0", "nested_blocks", "forced_flush",
+    "nested_dict", "list_mutation", "multi_handle", "project_doc", "buffer_cap0", "nested_blocks", "forced_flush", "block_left_by_exception",
     "multi_handle_in_block", "stale_object_in_block", "doc_after_remove", "doc_after_rekey", "attr_access", "assign_live_view", "type_drift", "write_deferred", "keyerror_matched",
     "lifecycle_between_blocks", "job_clear", "copy_handle_follows_rekey", "capacity_in_block",
 ]
@@ -249,7 +249,8 @@ class Run:
                 fsutil.write_file(self.path(i), json.dumps(self.model[i]).encode())
         if self.model[self.nj]:
             fsutil.write_file(self.path(self.nj), json.dumps(self.model[self.nj]).encode())
-        self.projB = sg.Project(self.root)
+        # a second Project object on the same directory, optionally through another spelling of its path
+        self.projB = sg.Project(os.path.join(self.root, "workspace", os.pardir) if case.get("spell") else self.root)
         self.groups = 0
         try:
             self.handles = [self._make_handles(t) for t in range(self.nj + 1)]
@@ -372,14 +373,23 @@ class Run:
         else:
             self.cl.add("nested_blocks")
 
-    def close_block(self):
+    def close_block(self, exc=False):
         if not self.stack:
             return
         from synced_collections.errors import BufferedError
 
         kind, arg, cm = self.stack.pop()
         try:
-            cm.__exit__(None, None, None)
+            if exc:
+                # the body of the `with` block raised (say, a KeyError of a dict operation the caller handles
+                # outside): the block is left all the same, its writes are flushed, the exception propagates
+                self.cl.add("block_left_by_exception")
+                err = KeyError("raised inside the block")
+                if cm.__exit__(KeyError, err, None):
+                    self.mm("buffer_state_leaked", "signac.buffered() swallowed an exception raised inside the block")
+                    return
+            else:
+                cm.__exit__(None, None, None)
         except BufferedError as e:
             self.mm("buffered_flush_raises", f"leaving signac.buffered() raised BufferedError: {str(e)[:300]}")
             return
@@ -400,9 +410,9 @@ class Run:
         self.block_touch = {}
         self.verify_all("after leaving the buffered block")
 
-    def close_all(self):
+    def close_all(self, exc=False):
         while self.stack and not self.fatal:
-            self.close_block()
+            self.close_block(exc=exc)
 
     # ---- comparisons ------------------------------------------------------------
     def compare(self, t, real, detector, what):
@@ -873,7 +883,11 @@ class Run:
             same = mexc == rexc
             if flags.get("attr_exc") and mexc and rexc:
                 same = {mexc, rexc} <= {"KeyError", "AttributeError"}
-            if not same:
+            if not same and t in self.stale_targets:
+                # a forced flush inside the block may already have dropped a write (F-BUFSTALEOBJ): the handle's view differs
+                self.quirk = True
+                self.mm("stale_object_flush", f"signac: {rexc or 'no exception'}; plain dict/list: {mexc or 'no exception'} (model before the op: {before!r})")
+            elif not same:
                 self.mm("exception_mismatch", f"signac: {rexc or 'no exception'}; plain dict/list: {mexc or 'no exception'} (model before the op: {before!r})")
             else:
                 self.cl.add("keyerror_matched")
@@ -890,7 +904,10 @@ class Run:
                 self.quirk = True
                 self.mm("none_over_collection", f"returned {rres!r}, plain dict/list gives {mres!r}", fatal=False)
                 return
-            if not ok:
+            if not ok and t in self.stale_targets:
+                self.quirk = True
+                self.mm("stale_object_flush", f"returned {rres!r}, plain dict/list gives {mres!r} (model before the op: {before!r})")
+            elif not ok:
                 self.mm("op_result", f"returned {rres!r}, plain dict/list gives {mres!r} (model before the op: {before!r})")
 
     # ---- driver -----------------------------------------------------------------
@@ -924,7 +941,7 @@ class Run:
                 if self.fatal:
                     break
             self.step_no, self.opname = len(ops), "end"
-            self.close_all()
+            self.close_all(exc=bool(self.case.get("exit_exc")))
             if not self.fatal:
                 if not _buffer_clean(sg):
                     self.mm("buffer_state_leaked", f"at the end: is_buffered()={sg.is_buffered()} size={sg.get_current_buffer_size()}")
@@ -954,6 +971,8 @@ class Run:
             self.open_block(kind, arg)
         elif kind == "close":
             self.close_block()
+        elif kind == "close_exc":
+            self.close_block(exc=True)
         elif kind == "set_cap":
             from synced_collections.errors import BufferedError
 
@@ -1110,7 +1129,7 @@ def cases(draw, max_ops=30):
     n = len(ops)
     evs = []
     for _ in range(draw(st.integers(0, 8))):
-        kind = draw(st.sampled_from(["open", "open", "open_cap", "close", "close", "set_cap"]))
+        kind = draw(st.sampled_from(["open", "open", "open_cap", "close", "close", "close_exc", "set_cap"]))
         ev = {"pos": draw(st.integers(0, max(n, 1))), "kind": kind}
         if kind in ("open_cap", "set_cap"):
             ev["arg"] = draw(st.sampled_from([0, 1, 64, 4096, 100000]))
@@ -1129,6 +1148,8 @@ def cases(draw, max_ops=30):
         "targets": nt,
         "keepref": draw(st.booleans()),
         "unpin": draw(st.integers(0, 2)) == 0,
+        "spell": draw(st.integers(0, 2)) == 0,
+        "exit_exc": draw(st.integers(0, 3)) == 0,
         "nh": draw(st.sampled_from([1, 2, 3, 3])),
         "init": init,
         "copy_after_doc": draw(st.booleans()),
@@ -1225,6 +1246,14 @@ CONSTRUCTED = [
         {"op": "assign_doc", "t": 1, "h": 2, "m": {"n": 1}},
         {"op": "setitem", "t": 1, "h": 0, "k": "foo", "v": {}},
     ], unpin=True, nh=3, init=[{"k": 0}, {"p": 1}]),
+    # the same through a second Project object opened by another spelling of the path; the block is left by an exception
+    _c([
+        {"op": "setitem", "t": 1, "h": 0, "k": "x", "v": 1},
+        {"op": "setitem", "t": 1, "h": 1, "k": "y", "v": [1]},
+        {"op": "setitem", "t": 0, "h": 0, "k": "k", "v": 2},
+        {"op": "setitem", "t": 0, "h": 1, "k": "n", "v": 3},
+        {"op": "read_call", "t": 0, "h": 0},
+    ], unpin=True, spell=True, exit_exc=True, nh=2, init=[{"k": 0}, {"p": 1}]),
     # capacity 0
     _c([
         {"op": "setitem", "t": 0, "h": 0, "k": "x", "v": 1},
